@@ -87,6 +87,11 @@ def case_C14(seed):
     # --- segment to segment
     t1 = G.destination(s1, rnd.uniform(0, 360), rnd.uniform(0, 2) * L)
     t2 = G.destination(t1, rnd.uniform(0, 360), rnd.uniform(0.2, 2) * L)
+    if seed % 4 == 2:
+        # connected segments (consecutive edges of a road, an observation segment that starts in a node): one end point is
+        # shared EXACTLY, in any of the four combinations
+        far = G.destination(s1 if seed % 8 == 2 else s2, rnd.uniform(0, 360), rnd.uniform(0.2, 2) * L)
+        t1, t2 = [(s2, far), (far, s1), (s1, far), (far, s2)][(seed // 8) % 4]
     dss, pf, pt, uf, ut = dl.distance_segment_to_segment(s1, s2, t1, t2)
     rss = G.seg_seg_distance(s1, s2, t1, t2)
     scale = max(L, G.gc_distance(s1, t1), G.gc_distance(s1, t2))
@@ -99,6 +104,10 @@ def case_C14(seed):
         viol.append(('C14:segment-to-segment-distance', f"distance {dss} vs spherical reference {rss} (tolerance {tol_ss})", dict(info, t1=t1, t2=t2)))
     elif not viol and (not (0 <= uf <= 1 and 0 <= ut <= 1) or abs(G.gc_distance(pf, pt) - dss) > tol_ss):
         viol.append(('C14:segment-to-segment-points-do-not-realise-the-distance', f"|pf-pt| = {G.gc_distance(pf, pt)}, reported {dss}, uf {uf}, ut {ut}", dict(info, t1=t1, t2=t2)))
+    elif not viol and (G.gc_distance(pf, G.point_on_arc(s1, s2, uf)) > tol_ss or G.gc_distance(pt, G.point_on_arc(t1, t2, ut)) > tol_ss):
+        # the reported points lie on their segments AT the reported relative positions
+        viol.append(('C14:segment-to-segment-points-are-not-at-the-reported-relative-positions',
+                     f"pf {pf} vs point at uf={uf}: {G.point_on_arc(s1, s2, uf)}; pt {pt} vs point at ut={ut}: {G.point_on_arc(t1, t2, ut)}", dict(info, t1=t1, t2=t2)))
     # --- box contains the disc
     c = s1
     rad = rnd.choice([1.0, 50.0, 100.0, 2000.0, 10000.0, 25000.0, 50000.0, 100000.0])
